@@ -18,6 +18,18 @@ CLAIMED = {
    technique="bounded-exhaustive cross-implementation enumeration: library streams into an independent T.81 Annex H decoder, reference-encoder streams (predictor x P x Td x table shape x segment layout x tiny images) into the library decoders",
    text="(a) every stream of the C02 space is decoded by an independent T.81 Annex H decoder written from the standard and must equal the source; (b) a reference encoder enumerates conformant streams over predictor 1..7, P 2..16, Td assignments 0..3 per component, 8 Huffman table shapes (incl. 16-bit codes, >8-bit-only), APPn/COM, DHT before/after SOF, all images <= 4 samples over boundary alphabets; lossless.Decode / lossless14sv1.Decode must return the source. The reference pair is self-validated on every case.",
    note="Trusted: /verif/harness/ref/t81lossless.go (T.81 H.1.2.1 edge rules, modulo 2^16 arithmetic, Annex C/K Huffman procedures). Restart intervals and point transform are outside the explored stream space."),
+ "C03": dict(engine="E1 space", design="§4 C03",
+   technique="bounded-exhaustive enumeration of images x precision x component count through jpegls/lossless Encode/Decode, with coder-state statistics from a reference decoder for non-vacuity",
+   text="All images <= 3x3 at P=2 (thorough: all 4^9), all 2x2 at P=4, all <= 5-6 samples at P=3; for every P in 2..16 every image of <= 6 samples and every 1xn/nx1 line (n<=7/8) over {0,1,MAX-1,MAX} (two-level images produce errors beyond RANGE/2: the modulo case), 3-component ILV-2 images; every sequence of <= 3 macro-ops (run/outlier/ramp/alternate with boundary lengths) wrapped into widths {1,2,3,8,70}; long-run families reaching run index 27+. Evidence counts run interruptions, LIMIT escapes, context resets and max |C| actually exercised.",
+   note="Contents above the exhaustive sizes come from macro sequences and 8 families, not all contents. Sample-domain convention of the property."),
+ "C07": dict(engine="E1 space", design="§4 C07",
+   technique="bounded-exhaustive enumeration of every (P, NEAR) pair x images over a NEAR-relative boundary alphabet through jpegls/nearlossless Encode/Decode with a per-sample bound oracle",
+   text="Every one of the ~2300 (P, NEAR) pairs is visited; per pair every image of <= 3 samples (thorough: 4) over {0,NEAR,NEAR+1,2NEAR+1,MAX-NEAR-1,MAX-NEAR,MAX,mid} (reconstruction clamp and quantisation boundaries), boundary NEARs with 3 components, macro rows with ramp step 2NEAR+1 (run/regular boundary). Oracle is exactly the statement: |dec-src| <= NEAR, range, reported NEAR and geometry, NEAR=0 exact.",
+   note="Larger images are macro/family content only."),
+ "C14": dict(engine="E1 space + reference decoder", design="§4 C14",
+   technique="bounded-exhaustive cross-implementation enumeration: every stream of the C03/C07 spaces decoded by an independent T.87 Annex A decoder and compared with the library decoder; byte equality of the two encoders at NEAR=0; H.3 vector",
+   text="Independent T.87 decoder (written from Annex A: default thresholds with the standard's CLAMP, contexts, bias, limited Golomb, run mode with interruption contexts, ILV 0/2, bit stuffing) decodes every stream of the C03 and C07 spaces and must equal the library decoder's image (NEAR=0: the source). lossless.Encode == nearlossless.Encode(NEAR=0) byte for byte and cross-decoding on every NEAR=0 case. The H.3 example stream as recalled is first decoded by the reference to the H.1 image (self-consistency), then both encoders must emit exactly it.",
+   note="Trusted: /verif/harness/ref/t87.go. Its agreement with the published H.3 stream and with the library on all lossless cases is the validation. LSE/non-default parameters are out of scope (property says default parameters)."),
 }
 NOT_APPLICABLE = {}
 
